@@ -150,6 +150,13 @@ func checkC02(c *Ctx, r *Report) {
 	for _, name := range []string{"ParseTCPResponse", "ParseRTUResponse"} {
 		c02Dispatcher(c, r, c.fnMust("packet", name), name == "ParseTCPResponse", false)
 	}
+	// R2.3 on every reply dispatcher (also the CRC-verifying one): a frame of exception length whose
+	// function byte has bit 7 set comes back as the typed exception of its framing (or, from the
+	// verifying dispatcher, as the CRC failure) — never as some other error that loses unit id,
+	// function and exception code
+	for _, name := range []string{"ParseTCPResponse", "ParseRTUResponse", "ParseRTUResponseWithCRC"} {
+		c02ExceptionTyped(c, r, c.fnMust("packet", name), name == "ParseTCPResponse", crc)
+	}
 	// R2.9: what the client parses is what the device sent: Do hands do()'s result to the parser
 	// unchanged (C19 R19.3 / C12 R12.5)
 	for _, spec := range []struct {
@@ -725,4 +732,65 @@ func c02NeverNeither(c *Ctx, r *Report, rule string) {
 		}
 	}
 	r.instance(rule, n)
+}
+
+// c02ExceptionTyped: see the call site.
+func c02ExceptionTyped(c *Ctx, r *Report, fn *ssa.Function, tcp bool, crc *ssa.Function) {
+	id := fnID(fn)
+	r.instance("R2.3", 1)
+	an := &Analysis{ctx: c, u: newUniverse(), top: fn, uninterp: map[*ssa.Function]string{crc: "crc16"}}
+	fr := an.newFrame(fn, nil, nil)
+	data, ok := fr.vals[fn.Params[0]].(ASlice)
+	if !ok {
+		r.undecided("R2.3", id, "first parameter is not a byte slice", c.pos(fn.Pos()))
+		return
+	}
+	ln, fcOff := int64(5), int64(1)
+	prem := Conj{}
+	if tcp {
+		ln, fcOff = 9, 7
+		prem = append(prem, atomEQ(fr.frameBytes(data, affConst(2), 2, true), affConst(0)), atomEQ(fr.frameBytes(data, affConst(4), 2, true), affConst(3)))
+	}
+	prem = append(prem, atomEQ(data.ln, affConst(ln)), atomGE(fr.frameBytes(data, affConst(fcOff), 1, true), affConst(128)))
+	fr.run(DNF{prem})
+	bad := ""
+	for _, site := range expandedReturns(fr, 0) {
+		rs := site.rs
+		if len(rs.state) == 0 {
+			continue
+		}
+		feasible := false
+		for _, cj := range rs.state {
+			if !infeasible(cj) {
+				feasible = true
+			}
+		}
+		if !feasible {
+			continue
+		}
+		ev := rs.vals[len(rs.vals)-1]
+		if g, isG := ev.(AGlobalVal); isG && strings.Contains(g.g.Name(), "CRC") {
+			continue // the verifying dispatcher's CRC failure
+		}
+		if ai, isI := ev.(AIface); isI {
+			if g, isG := ai.val.(AGlobalVal); isG && strings.Contains(g.g.Name(), "CRC") {
+				continue
+			}
+		}
+		ts, unknown := dynTypesOf(ev)
+		okT := !unknown && len(ts) == 1
+		if okT {
+			nt, isN := deref(ts[0]).(*types.Named)
+			okT = isN && strings.HasPrefix(nt.Obj().Name(), "ErrorResponse")
+		}
+		nf := site.fr.nilness(ev)
+		if !okT || !(nf.kind == fConst && !nf.b) && !rs.state.entailsForm(formNot(nf)) {
+			bad = fmt.Sprintf("return at %s yields %s (dynamic types %v, unknown=%v, nilness %v)", c.pos(rs.instr.Pos()), describeAV(ev), ts, unknown, nf.kind)
+		}
+	}
+	if bad == "" {
+		r.ok("R2.3", id, "every frame of exception length with bit 7 set in the function byte comes back as the typed exception of this framing (or as the CRC failure)", c.pos(fn.Pos()), true)
+	} else {
+		r.fail("R2.3", id, "a frame of exception length with bit 7 set in the function byte can come back as something other than the typed exception", c.pos(fn.Pos()), bad, "exception-not-typed")
+	}
 }
